@@ -170,7 +170,7 @@ func (p *Prog) VerifyFunc(fn *ssa.Function, fc *FuncContract, cf *ContractFile, 
 				if c.Name != "" {
 					name = "post." + c.Name
 				}
-				fr.obligeNamed(name, "post", freach, env.Bool(c.Expr), c.Src, c.Line)
+				fr.obligeParts(name, "post", freach, env, c)
 			}
 			if !fc.ModAll {
 				fr.frameObligations(final, freach)
